@@ -8,7 +8,7 @@ from itertools import permutations
 from .kernel import SkipStep, canon
 from .pgmodel import ModelExc, QE, CLASS
 
-CLASSES = ['NetworkNode', 'Component', 'NetworkService', 'ConnectionPoint', 'Link']
+CLASSES = ['NetworkNode', 'Component', 'NetworkService', 'ConnectionPoint', 'Link', 'CompositeLink', 'CompositeNode']
 RELS = ['has', 'connects', 'depends']
 
 
